@@ -20,6 +20,7 @@ From TLV Require Import Model.Constraints Proofs.ConstraintsProofs Proofs.Constr
 From TLV Require Import Base.Ops Model.Prox Proofs.ProxProofsHard Proofs.ProxProofsMono.
 From TLV Require Import Proofs.ProxProofsUni Proofs.ConstraintsProofsUni Proofs.ConstraintsProofsFeasible.
 From TLV Require Import Model.ConstraintsOps Proofs.ConstraintsProofsStatic Proofs.ConstraintsProofsInit.
+From TLV Require Import Model.ConstraintsStop Proofs.ConstraintsProofsStop Proofs.ConstraintsProofsClass Proofs.ConstraintsProofsRefute.
 Import ListNotations.
 Close Scope R_scope. Close Scope Q_scope.
 
@@ -337,6 +338,110 @@ Theorem C11_normalized_sparsity_end_to_end_partial : forall (P : Type) (truthy :
      forall c, In c (cols_of Rops (nth m fs dM)) -> nnzR c <= toN p).
 Proof. exact @cp_normalized_sparsity_rect. Qed.
 Print Assumptions C11_normalized_sparsity_end_to_end_partial.
+
+(* ---------------------------------------------------------------------------------------------------------------------------------
+   GENUINE DEFECTS of the property (round 6).  (1) max-normalisation and normalised sparsity divide 0 by 0 when the operator's input has a
+   zero kept part; that input class is reachable from the decomposition: (i) / (ii) the zero tensor with init='svd' (the raw factor of mode 0
+   is zero), (iii) normalized_sparsity={0: 0} on any data.  The run succeeds and the factor returned for mode 0 is NOT in the constraint set
+   (the real-arithmetic model returns the zero matrix, the code NaN).  The restricted statements that hold are the two `_partial` theorems
+   above.  Candidate repair: build/fix_candidates/C11_zero_input_normalisation.{diff,md}. *)
+Theorem C11_zero_operator_input_refuted : forall (other : kind -> nat -> mat -> mat) (E : env (M := mat)) (msub madd : mat -> mat -> mat)
+  (A : mat) (a b c d : R),
+  let run := fun sp raw => constrained_cp [] (op_c12 INR (fun p => p) other) (zvalidate nat_truthy 3 sp) msub madd E 3 (IComputed raw) [] 0 1 [] in
+  (exists fs, run (zkeywords (fun k => match k with KNormalize => ZScalar 1 | _ => ZNone end)) [Z22; A; A] = Ok fs /\
+              maxabs Rops (concat (nth 0 fs [])) <> 1%R) /\
+  (exists fs, run (zkeywords (fun k => match k with KNormSparsity => ZScalar 2 | _ => ZNone end)) [Z22; A; A] = Ok fs /\
+              sumsq Rops (concat (nth 0 fs [])) <> 1%R) /\
+  (exists fs, run (zkeywords (fun k => match k with KNormSparsity => ZDict [(0%Z, 0)] | _ => ZNone end)) [[[a; b]; [c; d]]; A; A] = Ok fs /\
+              sumsq Rops (concat (nth 0 fs [])) <> 1%R).
+Proof. exact cp_zero_input_refuted. Qed.
+Print Assumptions C11_zero_operator_input_refuted.
+
+(* (2) simplex / l1 ball with parameter 0 (reachable through a dict, which registers falsy values): the count of entries above their
+   threshold is 0 and the Python index count - 1 wraps around; [3; 1] is mapped to [1; 0], [-3; 1] to [-1; 0], although the simplex of sum 0
+   and the l1 ball of radius 0 are {0}.  Witness on C12's model of the coded algorithm at exact rationals; the statements that hold are
+   C11_simplex_end_to_end / C11_soft_sparsity_end_to_end (parameter > 0).  Candidate repair: build/fix_candidates/C11_simplex_nonpositive_parameter.{diff,md}. *)
+Theorem C11_nonpositive_simplex_parameter_refuted :
+  simplex_prox Qops 0%Q [3; 1]%Q = [1; 0]%Q /\ simplex_count Qops (sort_desc Qops [3; 1]%Q) (simplex_thr Qops 0%Q (sort_desc Qops [3; 1]%Q)) = 0 /\
+  soft_sparsity_prox Qops 0%Q [-3; 1]%Q = [-1; 0]%Q /\
+  ~ (lsum Qops (simplex_prox Qops 0%Q [3; 1]%Q) == 0)%Q /\ ~ (l1n Qops (soft_sparsity_prox Qops 0%Q [-3; 1]%Q) <= 0)%Q.
+Proof. exact nonpositive_simplex_refuted. Qed.
+Print Assumptions C11_nonpositive_simplex_parameter_refuted.
+
+(* ---------------------------------------------------------------------------------------------------------------------------------
+   The outer stopping rule AS WRITTEN (Model/ConstraintsStop.v: nothing is decided at iteration 0 or with a falsy tol_outer; the constraint
+   error is looked at first; cvg_criterion 'abs_rec_error' / 'rec_error' / anything else -> TypeError) instead of an arbitrary boolean:
+   every successful run of constrained_cp_c IS a run of constrained_cp (environment with_stop E S), whatever the criterion - so every
+   theorem above of the form "constrained_cp ... = Ok fs -> ..." holds of it ... *)
+Theorem C11_coded_stopping_rule_is_a_skeleton_run : forall (P M : Type) (dM : M) (op : kind -> P -> M -> M)
+  (val : nat -> res (option (kind * P))) (msub madd : M -> M -> M) (E : env (M := M)) (S : stop_env (M := M)) (n : nat)
+  (i0 : init (M := M)) (fixed : list nat) (n_outer n_inner : nat) (zero : M) (fs : list M),
+  constrained_cp_c dM op val msub madd E S n i0 fixed n_outer n_inner zero = Ok fs ->
+  constrained_cp dM op val msub madd (with_stop E S) n i0 fixed n_outer n_inner zero = Ok fs.
+Proof. exact @cp_c_ok. Qed.
+Print Assumptions C11_coded_stopping_rule_is_a_skeleton_run.
+
+(* ... with a documented criterion the two coincide (no additional raise) ... *)
+Theorem C11_known_criterion_never_raises : forall (P M : Type) (dM : M) (op : kind -> P -> M -> M)
+  (val : nat -> res (option (kind * P))) (msub madd : M -> M -> M) (E : env (M := M)) (S : stop_env (M := M)) (n : nat)
+  (i0 : init (M := M)) (fixed : list nat) (n_outer n_inner : nat) (zero : M),
+  s_crit S <> CrUnknown ->
+  constrained_cp_c dM op val msub madd E S n i0 fixed n_outer n_inner zero =
+  constrained_cp dM op val msub madd (with_stop E S) n i0 fixed n_outer n_inner zero.
+Proof. exact @cp_c_known. Qed.
+Print Assumptions C11_known_criterion_never_raises.
+
+(* ... and an unknown criterion raises (TypeError; not a validation error) exactly when it is reached: truthy tol_outer, two sweeps done,
+   constraint error not below the tolerance; never at iteration 0, with a falsy tol_outer, or when the constraint error is small *)
+Theorem C11_unknown_criterion_raises : forall (P M : Type) (dM : M) (op : kind -> P -> M -> M)
+  (val : nat -> res (option (kind * P))) (msub madd : M -> M -> M) (E : env (M := M)) (S : stop_env (M := M)) (n inner : nat)
+  (modes : list nat) (f : nat) (st st1 st2 : list M * list M),
+  s_crit S = CrUnknown -> s_tol S = true ->
+  sweep dM op val msub madd E inner 0 st modes = Ok st1 -> err_defined E n modes (fst st1) = true ->
+  sweep dM op val msub madd E inner 1 st1 modes = Ok st2 -> err_defined E n modes (fst st2) = true ->
+  s_cerr S 1 (fst st2) (snd st2) = false ->
+  outer_loop_c dM op val msub madd E S n inner (Datatypes.S (Datatypes.S f)) 0 modes st = Err.
+Proof. exact @unknown_criterion_raises. Qed.
+Print Assumptions C11_unknown_criterion_raises.
+
+Theorem C11_stop_rule_skips_criterion : forall (c : crit) (it : nat) (cerr a b : bool),
+  (it = 0 -> stop_rule true c it cerr a b = Ok false) /\ stop_rule false c it cerr a b = Ok false /\
+  (1 <= it -> stop_rule true c it true a b = Ok true).
+Proof. exact stop_rule_skips_criterion. Qed.
+Print Assumptions C11_stop_rule_skips_criterion.
+
+(* non-vacuity on tags: an unknown criterion with three sweeps raises; with one sweep, a falsy tol_outer or a small constraint error it
+   returns like a documented one *)
+Example C11_stopping_rule_examples :
+  let truthy := fun p : nat => negb (Nat.eqb p 0) in
+  let sp := zkeywords (fun k => match k with KNonNeg => ZScalar 1 | _ => ZNone end) in
+  let E := mkEnv (fun _ _ _ _ => 0) (fun _ _ _ _ _ _ => false) (fun _ _ _ => false) (fun _ _ => true) in
+  let S := fun tol c ce => mkStop tol c (fun _ _ _ => ce) (fun _ _ _ => false) (fun _ _ _ => false) in
+  let run := fun tol c ce n_outer => constrained_cp_c 0 (fun _ p _ => 100 + p) (zvalidate truthy 3 sp) (fun _ _ => 0) (fun _ _ => 0) E (S tol c ce) 3
+                                                      (IUser [7; 8; 9]) [] n_outer 1 0 in
+  run true CrUnknown false 3 = Err /\ run true CrUnknown false 1 = Ok [101; 101; 101] /\ run false CrUnknown false 3 = Ok [101; 101; 101] /\
+  run true CrUnknown true 3 = Ok [101; 101; 101] /\ run true CrRecError false 3 = Ok [101; 101; 101].
+Proof. repeat split; vm_compute; reflexivity. Qed.
+
+(* ---------------------------------------------------------------------------------------------------------------------------------
+   The class API: ConstrainedCP(...) stores its arguments, fit_transform(tensor) calls constrained_parafac with them (each under its own
+   name: corr:C11-static) and returns the decomposition it also keeps as `decomposition_`.  With the coded stopping rule: *)
+Theorem C11_fit_transform_feasible : forall (P : Type) (truthy : P -> bool) (toR : P -> R) (toN : P -> nat)
+  (other : kind -> P -> mat -> mat) (dM : mat) (msub madd : mat -> mat -> mat) (self : cp_object (P := P) (M := mat))
+  (E : env (M := mat)) (n : nat) (zero : mat) (fs : list mat) (m : nat) (k : kind) (p : P),
+  fit_transform truthy dM (op_c12 toR toN other) msub madd self E n zero = Ok fs ->
+  m < length fs -> init_computed (o_init self) = true \/ (In m (modes_list n (o_fixed self)) /\ 0 < o_outer self) ->
+  zrequested truthy n (o_specs self k) m p -> feas_c12 toR toN k p (nth m fs dM).
+Proof. exact @fit_transform_feasible. Qed.
+Print Assumptions C11_fit_transform_feasible.
+
+Theorem C11_fit_transform_rejects_double : forall (P : Type) (truthy : P -> bool) (toR : P -> R) (toN : P -> nat)
+  (other : kind -> P -> mat -> mat) (dM : mat) (msub madd : mat -> mat -> mat) (self : cp_object (P := P) (M := mat))
+  (E : env (M := mat)) (n : nat) (zero : mat),
+  zvalidate_table truthy n (zkeywords (o_specs self)) = Err ->
+  fit_transform truthy dM (op_c12 toR toN other) msub madd self E n zero = Err.
+Proof. exact @fit_transform_rejects. Qed.
+Print Assumptions C11_fit_transform_rejects_double.
 
 (* requests with two constraints on one mode are rejected by the decomposition, whatever the rest *)
 Theorem C11_decomposition_rejects_double : forall (P : Type) (truthy : P -> bool) (M : Type) (dM : M)
